@@ -997,3 +997,162 @@ def rule_options_init(mod, rep):
             rep.check(fld in must, "OPT-INIT", "%s#%s" % (f.name, fld), "options->%s is defined by p?gstrf_init / the driver" % fld,
                       "options->%s is read at %s (%s) but neither p%sgstrf_init (on every path) nor %s stores it: the simple driver passes an uninitialised automatic structure, so the "
                       "value is whatever an earlier call left on the stack" % (fld, L.loc, L.fn.name, prec, f.name), L.loc, f.name)
+
+
+# ---------------------------------------------------------------------------------------------------------------------------------
+# SNODE-BND (C16 C05): a supernode of L never extends across a boundary of the predicted partition
+# ---------------------------------------------------------------------------------------------------------------------------------
+def rule_snode_boundary(mod, rep):
+    rep.rule("SNODE-BND", "p?gstrf_column_dfs: the column joins the previous supernode only if super_bnd[jcol] == 0 - the routine contains a test of the loaded super_bnd[jcol] "
+             "against 0, and the code that opens a new supernode (the call of NewNsuper) is reachable from its non-zero edge without passing the test again. ?PresetMap reserves "
+             "storage per supernode of the predicted partition (in symmetric mode: the fundamental supernodes of chol(A'+A), which is NOT coarser than L's T2 supernodes), so a "
+             "supernode that runs across a boundary is stored with the wrong leading dimension and overlaps its neighbour", floor=4)
+    for prec, f in fam(mod, "p?gstrf_column_dfs"):
+        rep.scope([f.name])
+        kb = f.pindex("super_bnd"); kj = f.pindex("jcol")
+        news = [c for c in f.calls("NewNsuper")]
+        tests = []
+        for b in f.blocks:
+            t = b.insts[-1]
+            if t.op != "br" or not t.ops or t.ops[0][0] != "v" or len(t.tgt) < 2:
+                continue
+            c = f.inst[t.ops[0][1]]
+            if c.op != "icmp" or c.pred not in ("eq", "ne"):
+                continue
+            for k in (0, 1):
+                a = strip_casts(f, c.ops[k]); o = strip_casts(f, c.ops[1 - k])
+                if a[0] == "v" and f.inst[a[1]].op == "load" and is_const(o, 0):
+                    L = f.inst[a[1]]
+                    if any(p == (("A", kb), ("i",)) for p in f.addr_paths(L)) and same_val(gep_index(f, L.ops[0]), ["a", kj]):
+                        tests.append((t, c, t.tgt[0] if c.pred == "ne" else t.tgt[1]))
+        ok = False
+        if tests and news:
+            for (t, c, nz) in tests:
+                R = f.reach([f.blocks[nz].insts[0]], include_start=True)
+                if any(n.i in R for n in news):
+                    ok = True
+        if kb is None or not news:
+            rep.brk("ANALYSIS-BROKEN SNODE-BND: %s has no parameter super_bnd / no NewNsuper call" % f.name)
+            continue
+        rep.check(ok, "SNODE-BND", "%s#super_bnd" % f.name, "a boundary of the predicted partition starts a new supernode",
+                  "super_bnd[jcol] is not tested (or its non-zero edge does not lead to a new supernode): L's supernodes may run across the boundaries ?PresetMap reserved storage for",
+                  f.file, f.name)
+
+
+# ---------------------------------------------------------------------------------------------------------------------------------
+# FB-FRESH (C03): the busy chain recorded for a parent panel is the one of the child taken last
+# ---------------------------------------------------------------------------------------------------------------------------------
+def rule_fb_fresh(mod, rep):
+    from ..ir import expr_loads
+    rep.rule("FB-FRESH", "pxgstrf_scheduler: fb_cols[dad] (the farthest busy descendant the thread that later takes dad has to wait for) is overwritten by every child that "
+             "passes it on: no store to fb_cols[] is control dependent on a comparison that reads fb_cols[] (a 'keep the smaller one' merge keeps the column of a sibling that "
+             "finished long ago; walking up from that DONE column reaches dad itself, the thread waits for nothing and factors its panel without the updates of the still-busy "
+             "chain)", floor=1)
+    f = mod.funcs.get("pxgstrf_scheduler")
+    if f is None:
+        rep.brk("ANALYSIS-BROKEN FB-FRESH: pxgstrf_scheduler not found")
+        return
+    rep.scope([f.name])
+    helpers = [f]
+    from .ext import _owned_helpers
+    for (h, call_, g_) in _owned_helpers(mod, f):
+        helpers.append(h)
+    n = 0
+    for g in helpers:
+        cd = g.control_deps()
+        for s in g.insts():
+            if s.op != "store" or not any(p and p[-1] == ("i",) and any(st[0] == "f" and st[2] == "fb_cols" for st in p) for p in g.addr_paths(s)):
+                continue
+            n += 1
+            bad = None
+            seen = set(); work = [s.bb.id]
+            while work and bad is None:
+                b = work.pop()
+                for (cb, _e) in cd.get(b, ()):
+                    if cb in seen:
+                        continue
+                    seen.add(cb); work.append(cb)
+                    t = g.blocks[cb].insts[-1]
+                    if t.op == "br" and t.ops and t.ops[0][0] == "v":
+                        for L in expr_loads(g, t.ops[0]):
+                            if any(p and p[-1] == ("i",) and any(st[0] == "f" and st[2] == "fb_cols" for st in p) for p in g.addr_paths(L)):
+                                bad = t
+            rep.check(bad is None, "FB-FRESH", "%s#fb_cols@%d" % (g.name, n), "the record is overwritten unconditionally",
+                      "the store to fb_cols[] at %s is executed only under a comparison with the value already recorded (%s): a stale record of a finished sibling survives" % (
+                          s.loc, bad.loc if bad else ""), s.loc, g.name)
+    if n == 0:
+        rep.brk("ANALYSIS-BROKEN FB-FRESH: no store to fb_cols[] in the scheduler")
+
+
+# ---------------------------------------------------------------------------------------------------------------------------------
+# ARG-LD (C15): the leading-dimension test of a dense argument is not weakened by a conjunct
+# ---------------------------------------------------------------------------------------------------------------------------------
+def rule_arg_ld(mod, rep, floor=12):
+    rep.rule("ARG-LD", "argument prologues: the comparison of a dense matrix's leading dimension (DNformat.lda) with the row count is evaluated whenever the tests before it "
+             "found no error: every branch the comparison is immediately control dependent on leaves, on its other edge, to a store of a negative code into *info (it is an "
+             "earlier alternative of the same `||` or an earlier `else if`), never to the error-free continuation - `nrhs > 1 && ldb < n` accepts an undersized single "
+             "column that the kernels then address with that stride", floor=floor)
+    n = 0
+    for f in mod.funcs.values():
+        if not f.blocks:
+            continue
+        ki = f.pindex("info")
+        if ki is None:
+            continue
+        cd = None
+        for c in f.insts():
+            if c.op != "icmp" or c.pred not in ("slt", "sgt", "sle", "sge"):
+                continue
+            ld = None
+            for o in c.ops:
+                o = strip_casts(f, o)
+                if o[0] == "v" and f.inst[o[1]].op == "load":
+                    L0 = f.inst[o[1]]
+                    aps = f.addr_paths(L0)
+                    if aps and all(len(p) == 1 and p[0][0] == "L" for p in aps):
+                        # a copy kept in an address-taken local (its address goes to BLAS): follow the unique store
+                        sts = [s2 for s2 in f.insts() if s2.op == "store" and f.addr_paths(s2) == aps]
+                        if len(sts) == 1:
+                            v = strip_casts(f, sts[0].ops[0])
+                            if v[0] == "v" and f.inst[v[1]].op == "load":
+                                L0 = f.inst[v[1]]
+                    if any(p and p[-1][0] == "f" and p[-1][2] == "lda" and p[0][0] == "A" for p in f.addr_paths(L0)):
+                        ld = L0
+            if ld is None:
+                continue
+            # it must be an argument test: one edge of the branch on it reaches a negative store to *info
+            def neg_store_block(bid, depth=0):
+                b = f.blocks[bid]
+                for x in b.insts:
+                    if x.op == "store" and (("A", ki),) in f.addr_paths(x):
+                        v = strip_casts(f, x.ops[0])
+                        return v[0] == "c" and v[1] < 0
+                t = b.insts[-1]
+                if t.op == "br" and (not t.ops or t.ops[0][0] != "v") and t.tgt and depth < 3:
+                    return neg_store_block(t.tgt[0], depth + 1)
+                return False
+            t = c.bb.insts[-1]
+            if not (t.op == "br" and t.ops and t.ops[0] == ["v", c.i] and len(t.tgt) == 2):
+                continue
+            if not (neg_store_block(t.tgt[0]) or neg_store_block(t.tgt[1])):
+                continue
+            cd = f.control_deps()
+            n += 1
+            bad = None
+            for (cb, succ) in cd.get(c.bb.id, ()):
+                tb = f.blocks[cb].insts[-1]
+                if tb.op != "br" or len(tb.tgt or ()) != 2:
+                    continue
+                other = tb.tgt[1] if tb.tgt[0] == succ else tb.tgt[0]
+                if other == succ:
+                    continue
+                # the select diamond of SUPERLU_MAX(0, n) sits in front of the comparison: both arms lead here, none leaves the routine
+                R = f.reach([f.blocks[other].insts[0]], include_start=True, stop=lambda x: x.bb.id == c.bb.id)
+                if c.bb.insts[0].i in R and not any(f.inst[i].op == "ret" for i in R):
+                    continue
+                if not neg_store_block(other):
+                    bad = tb
+            rep.scope([f.name])
+            rep.check(bad is None, "ARG-LD", "%s#lda@%s" % (f.name, fmt_path(sorted(f.addr_paths(ld))[0], f)), "the leading-dimension test is reached whenever the earlier tests pass",
+                      "the leading-dimension test at %s is only evaluated under the condition at %s, whose other edge continues without an error code: an undersized leading "
+                      "dimension is accepted there" % (c.loc, bad.loc if bad else ""), c.loc, f.name)
